@@ -303,6 +303,7 @@ type Runner struct {
 	// directory), walOld the directories used earlier in this history (they are
 	// listed in Options.WALRecoveryDirs on every later Open, as the option's
 	// documentation requires); walInit says the fields are initialized.
+	sfs     *schedFS
 	walCur  string
 	walOld  []string
 	walInit bool
@@ -1457,6 +1458,11 @@ func (r *Runner) sampleLSM() {
 	if r.DB == nil {
 		return
 	}
+	if r.sfs != nil && r.sfs.sp.HoldManifest > 0 {
+		// Metrics() waits for the manifest lock: sampling would park the
+		// foreground behind every held MANIFEST sync and defeat the hold.
+		return
+	}
 	m := r.DB.Metrics()
 	levels, virt := 0, false
 	for i := range m.Levels {
@@ -1571,6 +1577,12 @@ func (r *Runner) step(s Step) error {
 		r.L["manual-compact"] = true
 	case "wait":
 		r.Wait()
+	case "waithold":
+		// until a background version edit is written but not yet synced
+		if r.sfs.waitHold() {
+			r.C["waited-for-held-manifest-sync"]++
+			r.L["foreground-continued-during-held-manifest-sync"] = true
+		}
 	case "restart":
 		if r.Plan.Opt.DisableWAL {
 			// Without a WAL only flushed data survives Close (documented); flush
